@@ -141,6 +141,20 @@ class _EulerBernoulli(_GroupElem):
 
         return dN_pg
 
+    def _Get_invF_along_axis_e_pg(self, matrixType: MatrixType) -> FeArray.FeArrayALike:
+        """dξ/ds with s running along the element from its first node to its second node (Ne, nPg).\n
+        This is invF_e_pg, except for elements lying on the x-axis and pointing towards -x:
+        they are described in the x coordinate itself and their invF_e_pg = dξ/dx is negative."""
+        return np.abs(self.Get_invF_e_pg(matrixType)[:, :, 0, 0])
+
+    def Get_dN_e_pg(self, matrixType: MatrixType) -> FeArray.FeArrayALike:
+        """First derivatives of the shape functions along the beam (from the first node of the element to the second).\n
+        (Ne, nPg, 1, nPe)"""
+        dN_e_pg = super().Get_dN_e_pg(matrixType)
+        # d/ds = sign(dx/dξ) d/dx for elements lying on the x-axis
+        sign_e_pg = np.sign(self.Get_invF_e_pg(matrixType)[:, :, 0, 0])
+        return FeArray.asfearray(np.asarray(dN_e_pg) * np.asarray(sign_e_pg)[:, :, None, None])
+
     def Get_Hermitian_dN_e_pg(self) -> FeArray.FeArrayALike:
         """Evaluates the first-order derivatives of Hermitian shape functions in (x, y, z) coordinates.\n
         [phi_i,x psi_i,x . . . phi_n,x psi_n,x]\n
@@ -149,7 +163,7 @@ class _EulerBernoulli(_GroupElem):
         if self.dim != 1:
             return None  # type: ignore [return-value]
 
-        invF_e_pg = self.Get_invF_e_pg(MatrixType.beam)[:, :, 0, 0]
+        invF_e_pg = self._Get_invF_along_axis_e_pg(MatrixType.beam)
         dN_pg = FeArray.asfearray(self.Get_Hermitian_dN_pg()[np.newaxis])
 
         dN_e_pg = invF_e_pg * dN_pg
@@ -251,7 +265,7 @@ class _EulerBernoulli(_GroupElem):
         if self.dim != 1:
             return None  # type: ignore [return-value]
 
-        invF_e_pg = self.Get_invF_e_pg(MatrixType.beam)[:, :, 0, 0]
+        invF_e_pg = self._Get_invF_along_axis_e_pg(MatrixType.beam)
         dddN_pg = FeArray.asfearray(self.Get_Hermitian_dddN_pg()[np.newaxis])
         nPe = self.nPe
 
